@@ -4,6 +4,8 @@ import Driver.Riscv
 import Driver.Cond
 import Driver.Sym
 import Driver.TwoPass
+import Driver.Sim
+import Driver.Mem
 
 def dispatch (line : String) : String :=
   match (line.trimAscii.toString.splitOn " ").filter (· ≠ "") with
@@ -22,6 +24,12 @@ def dispatch (line : String) : String :=
   | "blk" :: args => Driver.Cond.handleBlk args
   | "sym" :: args => Driver.Sym.handle args
   | "twopass" :: args => Driver.TwoPass.handle args
+  | "sim" :: args => Driver.Sim.handle args
+  | "simrun" :: args => Driver.Sim.handleRun args
+  | "arch" :: args => Driver.Sim.handleArch args
+  | "dislen" :: args => Driver.Sim.handleDisLen args
+  | "mem" :: args => Driver.Mem.handleMem args
+  | "dir" :: args => Driver.Mem.handleDir args
   | _ => "bad-op"
 
 partial def loop (h : IO.FS.Stream) (out : IO.FS.Stream) : IO Unit := do
